@@ -7,6 +7,7 @@ import (
 	"fmt"
 	"math/rand"
 	"sort"
+	"strings"
 	"sync"
 
 	"github.com/google/uuid"
@@ -260,6 +261,7 @@ func C12(c *core.Ctx) {
 			}
 		}
 	}
+	c12OptionHistories(c)
 	// (b') the random source fails for a while (the process is out of file descriptors, the entropy device errors):
 	// a Chunk() call during the outage fails one way or another (uuid.New panics), but no message may end up with
 	// an id that was not drawn from the source: when the source is back every message gets its own fresh id, and
@@ -389,5 +391,97 @@ func setOpts(m protocol.ChunkEncoder, o *protocol.MessageOptions) {
 		t.Options = o
 	case *protocol.PackedForwardMessage:
 		t.Options = o
+	}
+}
+
+// c12OptionHistories: histories of constructor calls, Chunk() calls, caller-supplied ids and edits of the size
+// option over several live messages, against the option-object model (coq/model/OptCells.v): what a caller
+// sees of EVERY message's options after the history must be the model's (ids numbered in order of generation).
+func c12OptionHistories(c *core.Ctx) {
+	r := c.Rng
+	uuid.SetRand(nil)
+	el := protocol.EntryList{{Timestamp: protocol.EventTimeNow(), Record: map[string]interface{}{"k": "v"}}}
+	raw := []byte{0x92, 0xd7, 0, 0, 0, 0, 1, 0, 0, 0, 0, 0x80}
+	type ctor struct {
+		kind string
+		mk   func() protocol.ChunkEncoder
+	}
+	ctors := []ctor{
+		{"p", func() protocol.ChunkEncoder { return protocol.NewMessage("t", map[string]interface{}{"k": "v"}) }},
+		{"p", func() protocol.ChunkEncoder { return protocol.NewMessageExt("t", map[string]interface{}{"k": "v"}) }},
+		{"p", func() protocol.ChunkEncoder { return protocol.NewPackedForwardMessageFromBytes("t", raw) }},
+		{"s", func() protocol.ChunkEncoder { return protocol.NewForwardMessage("t", el) }},
+		{"s", func() protocol.ChunkEncoder { m, _ := protocol.NewPackedForwardMessage("t", el); return m }},
+		{"g", func() protocol.ChunkEncoder {
+			m, _ := protocol.NewCompressedPackedForwardMessageFromBytes("t", raw)
+			return m
+		}},
+		{"b", func() protocol.ChunkEncoder { m, _ := protocol.NewCompressedPackedForwardMessage("t", el); return m }},
+	}
+	for h := 0; h < c.N(120, 4000); h++ {
+		var msgs []protocol.ChunkEncoder
+		var ops []string
+		gen := map[string]int{}     // generated id -> its number
+		caller := map[string]bool{} // ids the caller supplied
+		n := 3 + r.Intn(9)
+		for i := 0; i < n; i++ {
+			switch k := r.Intn(6); {
+			case k <= 1 || len(msgs) == 0:
+				ct := ctors[r.Intn(len(ctors))]
+				if h%3 == 0 { // histories dominated by one constructor: several messages of the same kind alive
+					ct = ctors[(h/3)%len(ctors)]
+				}
+				msgs = append(msgs, ct.mk())
+				ops = append(ops, "N"+ct.kind)
+			case k <= 3:
+				m := r.Intn(len(msgs))
+				id, err := msgs[m].Chunk()
+				if err != nil || id == "" {
+					c.Violation("judge-go", "c12-constructed", "Chunk() failed on a constructed message", nil)
+					continue
+				}
+				if _, seen := gen[id]; !seen && !caller[id] {
+					gen[id] = len(gen)
+				}
+				ops = append(ops, fmt.Sprintf("C%d", m))
+			case k == 4:
+				m := r.Intn(len(msgs))
+				id := fmt.Sprintf("caller-%d-%d", h, i)
+				caller[id] = true
+				if o := optsOf(msgs[m]); o == nil {
+					setOpts(msgs[m], &protocol.MessageOptions{Chunk: id})
+				} else {
+					o.Chunk = id
+				}
+				ops = append(ops, fmt.Sprintf("S%d,x%s", m, hx([]byte(id))))
+			default:
+				m := r.Intn(len(msgs))
+				if o := optsOf(msgs[m]); o != nil {
+					o.Size = nil
+				}
+				ops = append(ops, fmt.Sprintf("Z%d", m))
+			}
+		}
+		view := make([]string, len(msgs))
+		for i, m := range msgs {
+			o := optsOf(m)
+			if o == nil {
+				view[i] = "-"
+				continue
+			}
+			id := "-"
+			if o.Chunk != "" {
+				if k, ok := gen[o.Chunk]; ok {
+					id = fmt.Sprintf("#%d", k)
+				} else {
+					id = "x" + hx([]byte(o.Chunk))
+				}
+			}
+			view[i] = b01(o.Size != nil) + b01(o.Compressed == "gzip") + ":" + id
+		}
+		c.Eval()
+		c.Hist(fmt.Sprintf("option history of %d operations over %d messages", len(ops), len(msgs)))
+		c.Distinct("opt " + strings.Join(ops, ";"))
+		c.Corr("c12-options", "optcells_run", []string{strings.Join(ops, ";")}, strings.Join(view, ","))
 	}
 }
